@@ -678,6 +678,7 @@ _ADDED5 = {
     "C01": "A fourth configuration 'jekyll' (the jekyll-style include tag in place of the stdlib one): every argument list of up to 3 (thorough 4) tokens for it, its 12 definite faults in 5 surroundings, its well-formed spellings. Every definite fault that is invalid wherever a body element may stand is also placed inside 14 kinds of block body (incl. the slot of a case before its first when, after else, two blocks deep). Per-tag argument enumeration: every stdlib tag / block keyword with every argument list of up to 3 (thorough 4) atoms out of 34 (plain, dotted and indexed variables, literals, ranges, separators, keywords, filter applications, group names), also inside a comment and under the jekyll configuration.",
     "C03": "Raw bodies also hold closing-tag look-alikes that carry arguments ({% endraw x %}, {%- endraw , -%}: body text) and white space the grammar treats as text (U+2003, U+3000, U+2028, U+0085, FF, VT, U+FEFF).",
     "C07": "Array steps are also tried with fractional positions (0.5, 1.5, -0.5, len-0.1 as numbers and '1.5' / '0.9' as strings): they name no element, so the output tag must fail.",
+    "C08": "When a partial is named through a variable (one tag in three), half of the include / render tags also pass an argument of that very name holding another partial's name (arguments are visible only inside the partial: the tag still resolves the caller's value).",
     "C12": "The three serde entry points to_value / to_object / to_scalar are run on 80 Rust shapes (every scalar type, unit, unit / newtype / tuple structs, unit / newtype / tuple / struct enum variants, options, sequences, tuples, maps keyed by every scalar kind): whatever two of them accept they convert alike, an object for to_value is accepted by to_object, none panics, integer / char map keys arrive as their text.",
     "C20": "A parse failure is identified by its whole message; one round in five adds a template that does not parse (unknown filter / tag / block) and lets every thread start by parsing it, so the first failing parse on the shared parser is simultaneous; every 25th round is a cross round (two partials that include each other, never recursively, from inside the body of ifchanged / capture / for / tablerow / if / unless / case, entered from opposite ends by 8 threads x 300 calls: a block holding a lock while its body renders would deadlock).",
 }
